@@ -188,7 +188,14 @@ class Lib(object):
         cls.evaluator = staticmethod(evaluator)
         cls.StudentFacingError = StudentFacingError
         cls.MatrixGrader = MatrixGrader
+        from .. import libstate
+        cls._libstate = libstate
+        cls._switches = libstate.class_scalars([MathArray])      # pristine class-level switches of MathArray
         cls.ready = True
+
+    @classmethod
+    def restore_switches(cls):
+        cls._libstate.restore_class_scalars(cls._switches, [cls.MathArray])
 
 
 def to_lib(x):
@@ -358,7 +365,7 @@ def check_restored():
     """after a disabled episode, a plain negative power must work again"""
     Lib.load()
     got = attempt(lambda: Lib.MathArray([[2, 0], [0, 4]]) ** -1)
-    Lib.MathArray._negative_powers = True       # harness hygiene: never let a leak poison later cases
+    Lib.restore_switches()                      # harness hygiene: never let a leak poison later cases
     if got[0] == 'err' or not R.same_value([[0.5, 0], [0, 0.25]], got[1].tolist()):
         return viol('negative-powers-stay-disabled', 'after the disabling episode ended, A**-1 is still refused',
                     [[0.5, 0], [0, 0.25]], repr(got[1]))
